@@ -216,7 +216,7 @@ def prov_rdkit_attrs(repo, tier="quick"):
                 v = fl.canon(d.value, d.node)
                 if is_call(v, "int"):
                     gs = guards_of(fi, d.node)
-                    guarded = any(pol and isinstance(t, ast.Compare) and isinstance(t.ops[0], ast.NotEq) and
+                    guarded = any(isinstance(t, ast.Compare) and ((pol and isinstance(t.ops[0], ast.NotEq)) or ((not pol) and isinstance(t.ops[0], ast.Eq))) and
                                   isinstance(t.comparators[0], ast.Constant) and t.comparators[0].value == 1.5 for t, pol, g in gs)
             ok = bool(raw) and guarded and len(vals) == len(raw) + len(ints)
         m = method_call(o) if o else None
